@@ -373,6 +373,7 @@ func newEnvPickler() pickle.PicklerFunc {
 // - Builtins are pickled as (NEWOBJ "dawn" "Builtin" (name[, receiver]))
 // - Function code is pickled as (NEWOBJ "dawn" "FunctionCode" (module, globals, bytecode))
 // - Functions are pickled as (NEWOBJ "dawn" "Function" (defaults, freevars, code)).
+// - The missing default of a mandatory keyword-only parameter is pickled as (NEWOBJ "dawn" "Mandatory" ()).
 func envPickler(x starlark.Value) (module, name string, args starlark.Tuple, err error) {
 	switch x := x.(type) {
 	case *function:
@@ -391,6 +392,11 @@ func envPickler(x starlark.Value) (module, name string, args starlark.Tuple, err
 		defaults, freevars := x.Env()
 		return "dawn", "Function", starlark.Tuple{defaults, freevars, x.Code()}, nil
 	default:
+		// The defaults of a function hold a sentinel of an unexported type in place of the
+		// default of each mandatory keyword-only parameter.
+		if x.Type() == "mandatory" {
+			return "dawn", "Mandatory", starlark.Tuple{}, nil
+		}
 		return "", "", nil, pickle.ErrCannotPickle
 	}
 }
@@ -418,6 +424,8 @@ func envUnpickler(module, name string, args starlark.Tuple) (starlark.Value, err
 			return nil, fmt.Errorf("expcted 1 arg, got %v", len(args))
 		}
 		return args, nil
+	case "Mandatory":
+		return starlark.String("mandatory"), nil
 	case "Builtin":
 		if len(args) > 2 {
 			return nil, fmt.Errorf("expected at most 2 args, got %v", len(args))
